@@ -115,7 +115,13 @@ impl DeferredBeneficiaryReward {
         account
     }
 
-    #[cfg(test)]
+    /// Reward amount as a hexadecimal string, for verification events.
+    #[cfg(grevm_verif)]
+    pub(crate) fn verif_amount(self) -> String {
+        format!("{:x}", self.0)
+    }
+
+    #[cfg(any(test, grevm_verif))]
     pub(crate) fn for_test(amount: U256) -> Self {
         assert!(!amount.is_zero(), "a deferred reward must be non-zero");
         Self(amount)
